@@ -540,6 +540,41 @@ def _option_combinator_alternatives(crate, a):
     """`a.zip(b).is_some()` is `a.is_some() && b.is_some()`; `x.filter(p).is_some()` is
     `x.is_some() && p(payload of x)`"""
     e, v = a
+    if e[0] == "call" and e[1] in ("core::option::Option::<T>::map_or", "core::option::Option::<T>::is_some_and") and isinstance(v, bool):
+        # `x.map_or(d, p)` as a condition: `d` when x is None, `p(payload)` when it is Some
+        from . import resalg as _ra
+        IS = lambda x: ("call", "core::option::Option::<T>::is_some", (x,), ())
+        if e[1].endswith("map_or") and len(e[2]) == 3:
+            x, d, cl = e[2]
+            dflt = _const_bool(d[1]) if d[0] == "const" else None
+        elif e[1].endswith("is_some_and") and len(e[2]) == 2:
+            x, cl = e[2]
+            dflt = False
+        else:
+            return None
+        if dflt is None or cl[0] != "closure":
+            return None
+        dnf = _closure_dnf(crate, cl[1])
+        if dnf is None:
+            return None
+        pay = ("field", ("variant", x, "Some"), "0")
+        sub = lambda t_: strip_transparent(_ra._subst_closure(t_, cl[2], [pay]))
+        dnf = [tuple(normalise_atom(sub(x_), y_) if isinstance(y_, bool) else (sub(x_), y_) for (x_, y_) in d_) for d_ in dnf]
+        pos = [((IS(x), True),) + d_ for d_ in dnf]
+        neg = [((IS(x), True),)]
+        for d_ in dnf:
+            nxt = []
+            for partial in neg:
+                for atom in d_:
+                    for ng in _negate_atom(atom):
+                        nxt.append(partial + (ng,))
+            neg = nxt
+            if len(neg) > 32:
+                return None
+        none_case = [((IS(x), False),)]
+        if v:
+            return pos + (none_case if dflt else [])
+        return neg + ([] if dflt else none_case)
     if e[0] != "call" or e[1] != "core::option::Option::<T>::is_some" or not isinstance(v, bool) or not e[2]:
         return None
     inner = e[2][0]
